@@ -137,7 +137,7 @@ fn build_parameters(lens: &[usize], src: &[u8]) -> Parameters {
     let q_shift = 5;
     let q_bits = if q_shift > 4 { 9 } else { 8 };
     let p_bits = 7;
-    let p_shift = i32::from(lens[0] > 128);
+    let p_shift = i32::from(lens.first().is_some_and(|&len| len > 128));
 
     let q_tab: Vec<_> = (0..=u8::MAX).collect();
 
